@@ -55,10 +55,17 @@ a10 = describe('a10', set(range(20)))
 j1 = join('j1', [a1, a2, a3])
 j2 = join('j2', [a4, a5, a6, a7, a8])
 j3 = join('j3', [j1, j2, a9, a10])
-TOP = ['a1', 'a2', 'a3', 'a4', 'a5', 'a6', 'a7', 'a8', 'a9', 'a10', 'j1', 'j2', 'j3']
+# a compound task computed in the same run as its consumers (one of the workers runs with --aggressive-unload)
+def build(n):
+    return join('b%d' % n, [describe('p%d' % n, set(words[:n])), a1])
+cmp3 = CompoundTask(build, 3)
+cmp5 = CompoundTask(build, 5)
+j4 = join('j4', [cmp3, a2])
+j5 = join('j5', [j4, cmp5, cmp3])
+TOP = ['a1', 'a2', 'a3', 'a4', 'a5', 'a6', 'a7', 'a8', 'a9', 'a10', 'j1', 'j2', 'j3', 'cmp3', 'cmp5', 'j4', 'j5']
 '''
 
-NTASKS = 13
+NTASKS = 19
 
 READ = '''
 import sys, json
@@ -84,23 +91,30 @@ def _env(seed, calllog):
 
 
 def family(run, seeds=(11, 22, 33, 44)):
+    one_family(run, seeds, single_aggressive=False)
+    one_family(run, tuple(s_ + 100 for s_ in seeds), single_aggressive=True)
+
+
+def one_family(run, seeds, single_aggressive):
+    """single_aggressive: one worker only, with --aggressive-unload (nobody else can make up for what it leaves undone)"""
     d = core.scratch_dir('jugverif-seedproc-')
     try:
         jf = os.path.join(d, 'seedjf.py')
         with open(jf, 'w') as f:
-            f.write('from jug import TaskGenerator\n' + BODY)
+            f.write('from jug import TaskGenerator, CompoundTask\n' + BODY)
         plainf = os.path.join(d, 'plain.py')
         with open(plainf, 'w') as f:
-            f.write('TaskGenerator = lambda f: f\n' + BODY + '\nimport json as _j\nprint(_j.dumps({k: globals()[k] for k in TOP}, sort_keys=True))\n')
+            f.write('TaskGenerator = lambda f: f\nCompoundTask = lambda f, *a, **k: f(*a, **k)\n' + BODY + '\nimport json as _j\nprint(_j.dumps({k: globals()[k] for k in TOP}, sort_keys=True))\n')
         jugdir = os.path.join(d, 'store')
         calllog = os.path.join(d, 'calls.log')
         plainlog = os.path.join(d, 'plaincalls.log')
         open(calllog, 'w').close()
-        rp = {'kind': 'seedproc', 'seeds': list(seeds)}
+        rp = {'kind': 'seedproc', 'seeds': list(seeds), 'single_worker_with_aggressive_unload': single_aggressive}
         core.CURRENT_INPUT.clear()
         core.CURRENT_INPUT.update({'family': 'separate interpreter processes with different PYTHONHASHSEED on one file store', 'jugfile': BODY})
-        cmd = [sys.executable, '-c', 'from jug.jug import main; main()', 'execute', jf, '--jugdir', jugdir, '--nr-wait-cycles', '3', '--wait-cycle-time', '1']
-        ps = [subprocess.Popen(cmd, cwd=d, env=_env(s, calllog), stdout=subprocess.PIPE, stderr=subprocess.STDOUT, text=True) for s in seeds[:2]]
+        cmd = [sys.executable, '-c', 'from jug.jug import main; main()', 'execute', jf, '--jugdir', jugdir, '--nr-wait-cycles', '3', '--wait-cycle-time', '0' if single_aggressive else '1']
+        ps = [subprocess.Popen(cmd + (['--aggressive-unload'] if (k_ == 1 or single_aggressive) else []), cwd=d, env=_env(s, calllog), stdout=subprocess.PIPE, stderr=subprocess.STDOUT, text=True)
+              for k_, s in enumerate(seeds[:1] if single_aggressive else seeds[:2])]
         outs = [p.communicate(timeout=120)[0] for p in ps]
         for p, o, s in zip(ps, outs, seeds):
             if p.returncode != 0:
@@ -112,14 +126,14 @@ def family(run, seeds=(11, 22, 33, 44)):
         p5 = subprocess.run([sys.executable, plainf], cwd=d, env=_env(0, plainlog), stdout=subprocess.PIPE, stderr=subprocess.PIPE, text=True, timeout=120)
         if p5.returncode != 0:
             raise core.InfraError('plain twin of the seed-process family fails: ' + p5.stderr[-300:])
-        run.case(('seedproc',) + tuple(seeds), nontrivial=True)
+        run.case(('seedproc', single_aggressive) + tuple(seeds), nontrivial=True)
         run.count('seed_process_runs')
         dup = sorted({c for c in calls1 if calls1.count(c) > 1})
         if dup:
             run.fail('seedproc-not-once', 'two jug execute processes with different PYTHONHASHSEED (%s, %s) on one file store invoked %s more than once (%d invocations for %d tasks)'
                      % (seeds[0], seeds[1], dup[:4], len(calls1), NTASKS), rp)
         elif len(calls1) != NTASKS:
-            run.fail('seedproc-incomplete', 'two jug execute processes invoked %d task functions, the jugfile defines %d tasks: %s' % (len(calls1), NTASKS, outs[0][-300:]), rp)
+            run.fail('seedproc-incomplete', '%s invoked %d task functions, the jugfile defines %d tasks: %s' % ('one jug execute --aggressive-unload process' if single_aggressive else 'two jug execute processes', len(calls1), NTASKS, outs[0][-300:]), rp)
         if len(calls2) != len(calls1):
             run.fail('seedproc-rerun-executes', 'a further jug execute in a process with PYTHONHASHSEED=%s invoked %s again although every task had completed in the processes with seeds %s and %s '
                      '(the identifiers of tasks with set / dict arguments differ between interpreters)' % (seeds[2], calls2[len(calls1):][:5], seeds[0], seeds[1]), rp)
